@@ -2665,9 +2665,14 @@ impl<T: Storage> Raft<T> {
 
         // Now go ahead and actually restore.
 
-        if self.pending_request_snapshot == INVALID_INDEX
-            && self.raft_log.match_term(meta.index, meta.term)
-        {
+        // The leader answers a snapshot request with a snapshot at or beyond the requested
+        // index. An older one that arrives while a request is pending (a delayed or
+        // duplicated MsgSnapshot) is not that answer and must be treated like any other
+        // snapshot: if it matches the log it only fast-forwards the commit index instead of
+        // discarding the (possibly already acknowledged) entries behind it.
+        let requested = self.pending_request_snapshot != INVALID_INDEX
+            && meta.index >= self.pending_request_snapshot;
+        if !requested && self.raft_log.match_term(meta.index, meta.term) {
             info!(
                 self.logger,
                 "fast-forwarded commit to snapshot";
